@@ -14,7 +14,8 @@ LEVEL = "proof"
 TRUSTED = ["id(x) identifies the object x (values stored in a list are kept alive by their boxes)"]
 NOT_DECIDED = ["termination of an iterator step once edits stop (tombstone chains are finite: argued, no VC)",
                "traversal.RecursiveGraphIterator (nested generators with callbacks): bounded stand-in only"]
-BOUNDED = []
+BOUNDED = [{"name": "C11 random interleavings of iterator steps (several iterators, both directions) with every node-list mutator on a real Graph "
+                    "against an executable reference of the statement (bounded)", "script": "bounded_iter.py", "args": []}]
 
 SPEC = '''
 def inU(L, b):
